@@ -8,6 +8,7 @@ package main
 // limit: if the process dies or stalls, the last BEGIN line names the input (inputs.txt holds them, quoted).
 
 import (
+	"syscall"
 	"bufio"
 	"fmt"
 	"os"
@@ -249,8 +250,13 @@ func cmdC10(c *ctx) {
 		fmt.Fprintf(out, "BEGIN %d %s %d\n", i, class, len(src))
 		out.Flush()
 		t0 := time.Now()
+		cpu0 := cpuMillis()
 		bad := c10Drive(src, out)
 		ms := time.Since(t0).Milliseconds()
+		// the budget is judged on min(wall, CPU) so that a loaded machine does not turn into a "slow input"
+		if cpu := cpuMillis() - cpu0; cpu < ms {
+			ms = cpu
+		}
 		verdict := "ok"
 		if bad != "" {
 			verdict = "PANIC " + oneLine(bad)
@@ -262,6 +268,15 @@ func cmdC10(c *ctx) {
 }
 
 func init() { commands["c10"] = cmdC10 }
+
+// cpuMillis: user + system CPU time of this process so far.
+func cpuMillis() int64 {
+	var ru syscall.Rusage
+	if err := syscall.Getrusage(syscall.RUSAGE_SELF, &ru); err != nil {
+		return 1 << 60
+	}
+	return (ru.Utime.Sec+ru.Stime.Sec)*1000 + int64(ru.Utime.Usec+ru.Stime.Usec)/1000
+}
 
 // c10one FILE…: replay — run every entry point on the given source files, printing the time of each stage.
 func cmdC10One(c *ctx) {
